@@ -13,13 +13,26 @@
 (* for a closed document this is a write by another program that the       *)
 (* server is told about), Close(u), Open(u).                               *)
 (*                                                                         *)
-(* `known[u]` is what the server believes u holds.  Mechanisms (constant   *)
-(* Mech):                                                                  *)
-(*   "repaired"  every notification brings known[u] to View(u)             *)
+(* The documents form a journal: Root includes a SET of the other          *)
+(* documents, and that set is part of Root's text -- `inc` in the editor's *)
+(* text, `dinc` in the file.  Link(u) / Unlink(u) are changes of Root that *)
+(* add / remove the directive `include u`.  What a request on the journal  *)
+(* must be answered from is the view of every document of                  *)
+(*      Tree = {Root} \cup (IF open[Root] THEN inc ELSE dinc)              *)
+(* A document outside the tree is a journal of its own.                    *)
+(*                                                                         *)
+(* `known[u]` is what the server's workspace believes u holds; it follows  *)
+(* the notifications of MEMBERS of the tree only, and a document that      *)
+(* joins the tree is fetched at that moment.  Mechanisms (constant Mech):  *)
+(*   "repaired"  every notification brings known[u] to View(u), a joining  *)
+(*               document is fetched from its view                         *)
 (*   "open-ignored"   didOpen does not touch what the workspace knows      *)
 (*   "close-ignored"  didClose keeps the discarded buffer                  *)
-(* The last two are how the server behaved before a0974db; TLC shows that  *)
-(* each violates KnownIsView (so the invariant is not vacuous).            *)
+(*   "join-reads-file" a joining document is read from its file even when  *)
+(*               it is open in the editor with another text                *)
+(* The first two are how the server behaved before a0974db, the last how   *)
+(* it behaved before the repair of hunt/D/1; TLC shows that each violates  *)
+(* KnownIsView (so the invariant is not vacuous).                          *)
 (* Every behaviour of MaxOps notifications is printed and replayed on the  *)
 (* real server, serially (each background job is awaited); at the end the  *)
 (* server that lived through the history and a fresh server given          *)
@@ -27,46 +40,71 @@
 (***************************************************************************)
 EXTENDS Naturals, Sequences, FiniteSets, TLC, Json
 
-CONSTANTS Docs, MaxOps, Mech
+CONSTANTS Docs, Root, MaxOps, Mech
 
-VARIABLES disk, open, ed, known, h
-vars == <<disk, open, ed, known, h>>
+VARIABLES disk, open, ed, inc, dinc, known, h
+vars == <<disk, open, ed, inc, dinc, known, h>>
 
 View(u) == IF open[u] THEN ed[u] ELSE disk[u]
+Tree == {Root} \cup (IF open[Root] THEN inc ELSE dinc)
 
 Init == /\ disk = [u \in Docs |-> 1] /\ open = [u \in Docs |-> TRUE] /\ ed = [u \in Docs |-> 1]
+        /\ inc = Docs \ {Root} /\ dinc = Docs \ {Root}
         /\ known = [u \in Docs |-> 1] /\ h = <<>>
 
 More == Len(h) < MaxOps
 Log(e) == h' = Append(h, e)
 
+(* the workspace follows members only *)
+Tell(u, v) == IF u \in Tree THEN [known EXCEPT ![u] = v] ELSE known
+(* documents that join the tree by this step (none of them is changed by the step itself) are fetched *)
+Fetch(u) == IF Mech = "join-reads-file" THEN disk[u] ELSE View(u)
+Joining(k, tree2) == [u \in Docs |-> IF u \in tree2 /\ u \notin Tree THEN Fetch(u) ELSE k[u]]
+
 Change(u) == /\ More /\ open[u]
              /\ ed' = [ed EXCEPT ![u] = @ + 1]
-             /\ known' = [known EXCEPT ![u] = ed[u] + 1]
-             /\ Log([op |-> "change", uri |-> u]) /\ UNCHANGED <<disk, open>>
+             /\ known' = Tell(u, ed[u] + 1)
+             /\ Log([op |-> "change", uri |-> u]) /\ UNCHANGED <<disk, open, inc, dinc>>
+
+(* a change of Root that adds / removes the directive `include u` *)
+Link(u) == /\ More /\ open[Root] /\ u # Root /\ u \notin inc
+           /\ inc' = inc \cup {u}
+           /\ ed' = [ed EXCEPT ![Root] = @ + 1]
+           /\ known' = Joining(Tell(Root, ed[Root] + 1), {Root} \cup inc')
+           /\ Log([op |-> "link", uri |-> u]) /\ UNCHANGED <<disk, open, dinc>>
+
+Unlink(u) == /\ More /\ open[Root] /\ u \in inc
+             /\ inc' = inc \ {u}
+             /\ ed' = [ed EXCEPT ![Root] = @ + 1]
+             /\ known' = Tell(Root, ed[Root] + 1)
+             /\ Log([op |-> "unlink", uri |-> u]) /\ UNCHANGED <<disk, open, dinc>>
 
 Save(u) == /\ More
            /\ disk' = [disk EXCEPT ![u] = ed[u]]
-           /\ known' = [known EXCEPT ![u] = ed[u]]          \* open: the buffer it already knows; closed: the file as written
-           /\ Log([op |-> "save", uri |-> u]) /\ UNCHANGED <<open, ed>>
+           /\ dinc' = IF u = Root THEN inc ELSE dinc
+           \* open: the buffer it already knows; closed: the file as written (for a closed Root the tree becomes the editor's)
+           /\ known' = Joining(Tell(u, ed[u]), {Root} \cup (IF u = Root /\ ~open[Root] THEN inc ELSE Tree \ {Root}))
+           /\ Log([op |-> "save", uri |-> u]) /\ UNCHANGED <<open, ed, inc>>
 
 Close(u) == /\ More /\ open[u]
             /\ open' = [open EXCEPT ![u] = FALSE]
-            /\ known' = IF Mech = "close-ignored" THEN known ELSE [known EXCEPT ![u] = disk[u]]
-            /\ Log([op |-> "close", uri |-> u]) /\ UNCHANGED <<disk, ed>>
+            /\ known' = IF Mech = "close-ignored" THEN known
+                         ELSE Joining(Tell(u, disk[u]), {Root} \cup (IF u = Root THEN dinc ELSE Tree \ {Root}))
+            /\ Log([op |-> "close", uri |-> u]) /\ UNCHANGED <<disk, ed, inc, dinc>>
 
 Open(u) == /\ More /\ ~open[u]
            /\ open' = [open EXCEPT ![u] = TRUE]
-           /\ known' = IF Mech = "open-ignored" THEN known ELSE [known EXCEPT ![u] = ed[u]]
-           /\ Log([op |-> "open", uri |-> u]) /\ UNCHANGED <<disk, ed>>
+           /\ known' = IF Mech = "open-ignored" THEN known
+                        ELSE Joining(Tell(u, ed[u]), {Root} \cup (IF u = Root THEN inc ELSE Tree \ {Root}))
+           /\ Log([op |-> "open", uri |-> u]) /\ UNCHANGED <<disk, ed, inc, dinc>>
 
-Next == \E u \in Docs : Change(u) \/ Save(u) \/ Close(u) \/ Open(u)
+Next == \E u \in Docs : Change(u) \/ Save(u) \/ Close(u) \/ Open(u) \/ Link(u) \/ Unlink(u)
 Spec == Init /\ [][Next]_vars
 
-(* the contract: after every notification the server knows exactly the view *)
-KnownIsView == \A u \in Docs : known[u] = View(u)
+(* the contract: after every notification the server knows exactly the view of every document of the journal *)
+KnownIsView == \A u \in Tree : known[u] = View(u)
 
 TypeOK == \A u \in Docs : disk[u] <= ed[u] /\ ed[u] >= 1
 
-Emit == (Len(h) = MaxOps) => PrintT(ToJson([ops |-> h, disk |-> disk, open |-> open, ed |-> ed]))
+Emit == (Len(h) = MaxOps) => PrintT(ToJson([ops |-> h, disk |-> disk, open |-> open, ed |-> ed, inc |-> inc, dinc |-> dinc]))
 =============================================================================
